@@ -84,14 +84,23 @@ def setup():
 
 def run_job(job, seed, tier, outdir, idx):
     """job: dict(variant, profile, mode, args: dict, shards: int, timeout: s). Returns list of shard results."""
-    binp = build(job.get("variant", "full"), job.get("profile", "relcheck"))
+    interp = job.get("miri", False)
+    binp = None if interp else build(job.get("variant", "full"), job.get("profile", "relcheck"))
     shards = job.get("shards", NCPU)
     results = []
+    env = dict(ENV)
+    if interp:
+        # undefined-behaviour interpreter: the same harness crate, run by `cargo +nightly miri run`
+        env["MIRIFLAGS"] = "-Zmiri-disable-isolation"
+        prefix = ["cargo", "+nightly", "miri", "run", "--offline", "--no-default-features", "--features", "v_" + job.get("variant", "full"),
+                  "--target-dir", os.path.join(TARGET, "interp"), "--manifest-path", os.path.join(harness_dir(), "Cargo.toml"), "--"]
+    else:
+        prefix = [binp]
 
     def one(i):
         out = os.path.join(outdir, "job%d-%d.json" % (idx, i))
         dout = os.path.join(outdir, "job%d-%d.distinct" % (idx, i))
-        argv = [binp, job["mode"], "--seed", str(seed), "--shard", "%d/%d" % (i, shards), "--tier", tier, "--out", out, "--distinct-out", dout]
+        argv = prefix + [job["mode"], "--seed", str(seed + (i if interp else 0)), "--shard", "%d/%d" % (i, shards), "--tier", tier, "--out", out, "--distinct-out", dout]
         for k, v in job.get("args", {}).items():
             argv += ["--" + k, str(v)]
         if job.get("trace"):
@@ -101,7 +110,7 @@ def run_job(job, seed, tier, outdir, idx):
         while True:
             attempt += 1
             try:
-                r = subprocess.run(argv, env=ENV, stdout=subprocess.PIPE, stderr=subprocess.PIPE, text=True, timeout=job.get("timeout", 900))
+                r = subprocess.run(argv, env=env, stdout=subprocess.PIPE, stderr=subprocess.PIPE, text=True, timeout=job.get("timeout", 900))
                 rc, err = r.returncode, r.stderr[-3000:]
             except subprocess.TimeoutExpired:
                 return {"status": "timeout", "argv": argv, "wall": time.time() - t0}
@@ -149,7 +158,8 @@ def check(prop, tier, seed):
     plan = PLANS[prop][tier] if tier in PLANS[prop] else PLANS[prop]["quick"]
     # build everything first (from /repo's current tree)
     for job in plan:
-        build(job.get("variant", "full"), job.get("profile", "relcheck"))
+        if not job.get("miri"):
+            build(job.get("variant", "full"), job.get("profile", "relcheck"))
     known = load_known()
     # witnesses of known findings are re-executed on every run
     jobs = list(plan)
